@@ -40,6 +40,7 @@ type Variant struct {
 	Shift  int      // index into shifts
 	Cut    int      // -1: none; otherwise backup after Cut requests, restore into a new store, replay the tail
 	Part   [][]Call // operator lifetimes (one applyEntries event each) -> calls
+	Syncer bool     // the entries carry Type = FromClusterSyncer (conflict pre-check when applied live)
 	Expire int      // local-deletion policy only: run the node-local expiry sweep after this many requests (-1: never)
 }
 
@@ -123,7 +124,11 @@ func (v *Variant) line() string {
 	if v.Replay {
 		rp = "1"
 	}
-	return fmt.Sprintf("%s\tVAR\t%s\t%s\t%d\t%d\t%d\t%s", v.ID, v.Engine, rp, v.Shift, v.Cut, v.Expire, partString(v.Part))
+	fl := "-"
+	if v.Syncer {
+		fl = "s"
+	}
+	return fmt.Sprintf("%s\tVAR\t%s\t%s\t%d\t%d\t%d\t%s\t%s", v.ID, v.Engine, rp, v.Shift, v.Cut, v.Expire, partString(v.Part), fl)
 }
 
 func parseVariant(f []string) (*Variant, error) {
@@ -143,6 +148,9 @@ func parseVariant(f []string) (*Variant, error) {
 	}
 	if v.Part, err = parsePart(f[7]); err != nil {
 		return nil, err
+	}
+	if len(f) > 8 && strings.Contains(f[8], "s") {
+		v.Syncer = true
 	}
 	return v, nil
 }
@@ -171,6 +179,24 @@ func partGiant(n, per int) [][]Call {
 			op[j] = Call{N: 1}
 		}
 		p = append(p, op)
+	}
+	return p
+}
+
+// random lifetimes, every call a single request (no ReqId)
+func partGiantRandom(r *hx.Rng, n int) [][]Call {
+	var p [][]Call
+	for i := 0; i < n; {
+		m := 1 + r.Intn(30)
+		if i+m > n {
+			m = n - i
+		}
+		op := make([]Call, m)
+		for j := range op {
+			op[j] = Call{N: 1}
+		}
+		p = append(p, op)
+		i += m
 	}
 	return p
 }
